@@ -29,7 +29,7 @@ MAX_K_BATCHED = 34
 
 def REQUIRED(tier):
     return ["snapshots_taken", "snapshot_prefix_checks", "kill_children", "kill:died_at_point", "kill:survivor_opened", "truncations", "strace_runs", "strace_write_events",
-            "writers_covered", "snapshot:preexisting_output", "kill:preexisting_output"]
+            "writers_covered", "snapshot:preexisting_output", "kill:preexisting_output", "snapshot:product_over_1MiB"]
 
 
 def EXHAUSTIVE(tier):
@@ -42,6 +42,10 @@ def cases(tier, seed):
         for g in gulps:
             yield {"kind": "snapshot", "writer": w, "gulp": g}
         yield {"kind": "snapshot", "writer": w, "gulp": 5, "pre": True}   # re-run over an existing, longer output of the same name
+    for w in c20_scen.BIG_WRITERS:
+        yield {"kind": "snapshot", "writer": w, "gulp": 65536}
+        for k in (1, 3, 5):
+            yield {"kind": "kill", "writer": w, "gulp": 65536, "k": k}
     for w in c20_scen.WRITERS:
         for k in range(MAX_K_BATCHED if w.endswith("_b2") else MAX_K):
             yield {"kind": "kill", "writer": w, "gulp": 5, "k": k}
@@ -102,6 +106,8 @@ def _snapshot(case, ctx):
     _hook["active"] = rec
     ctx.evaluated()
     ctx.count("writers_covered")
+    if case["writer"] in c20_scen.BIG_WRITERS:
+        ctx.count("snapshot:product_over_1MiB")
     try:
         outs = c20_scen.run_writer(case["writer"], d, case["gulp"], preexisting=bool(case.get("pre")))
         if case.get("pre"):
